@@ -1345,6 +1345,13 @@ pub fn array_from(
                     .array_elements()
                     .map(|e| e.to_vec())
                     .unwrap_or_default();
+                // The map function may remove the remaining elements from the
+                // source array while they wait in this copy
+                for elem in &source_elements {
+                    if let JsValue::Object(obj) = elem {
+                        guard.guard(obj.cheap_clone());
+                    }
+                }
                 for (i, elem) in source_elements.into_iter().enumerate() {
                     let mapped = if let Some(ref map) = map_fn {
                         if map.is_callable() {
